@@ -13,6 +13,7 @@ import (
 	"bytes"
 	"fmt"
 	"go/ast"
+	"go/constant"
 	"go/token"
 	"go/types"
 	"os"
@@ -48,15 +49,37 @@ type normState struct {
 	src      map[string][]byte // current content per file
 	sites    map[*types.Func]int
 	tailMode bool // rendering a callee body for a `return f(...)` site: its returns stay returns
+	// flag continuation: `a, ok := f(); if !ok { ...return }` — each return of f carries a constant in the flag
+	// position, so the if statement is decided per return: its body is appended where the condition holds
+	flagIdx    int    // -1 = off
+	flagWhen   bool   // the if body runs when the flag has this value
+	flagBody   string // text of the if body's statements
+	flagNil    bool   // the tested result is compared with nil (flagWhen: the body runs when it is non-nil)
+	flagIfText string // the whole if statement without its init
+	nextStmt   ast.Stmt
+	ateNext    bool
+	skipBody   bool
 }
 
 // Normalize returns an overlay in which new helpers are inlined (up to 3 rounds), and their names.
 func Normalize(p *Prog) (map[string][]byte, []string, error) {
-	ns := &normState{p: p, inlined: map[string]bool{}, src: map[string][]byte{}}
+	ns := &normState{p: p, inlined: map[string]bool{}, src: map[string][]byte{}, flagIdx: -1}
 	for k, v := range p.Cfg.Overlay {
 		ns.src[k] = v
 	}
 	cur := p
+	// named conditions first: `c := X && Y; if c {...}` is `if X && Y {...}`
+	if changed, err := ns.condVarRound(cur); err != nil {
+		return nil, nil, err
+	} else if changed {
+		cfg := p.Cfg
+		cfg.Overlay = ns.src
+		np, err := Load(cfg)
+		if err != nil {
+			return nil, nil, fmt.Errorf("normalised tree does not load: %v", err)
+		}
+		cur = np
+	}
 	for round := 0; round < 3; round++ {
 		changed, err := ns.round(cur)
 		if err != nil {
@@ -69,6 +92,11 @@ func Normalize(p *Prog) (map[string][]byte, []string, error) {
 		cfg.Overlay = ns.src
 		np, err := Load(cfg)
 		if err != nil {
+			if d := os.Getenv("OXY_DUMP_NORM"); d != "" {
+				for k, v := range ns.src {
+					_ = os.WriteFile(d+"/"+strings.ReplaceAll(strings.TrimPrefix(k, "/"), "/", "_"), v, 0o644)
+				}
+			}
 			return nil, nil, fmt.Errorf("normalised tree does not load: %v", err)
 		}
 		cur = np
@@ -205,10 +233,11 @@ func eligibleCallee(pkg *packages.Package, fd *ast.FuncDecl, obj *types.Func) bo
 			return false
 		}
 	}
+	named := false
 	if fd.Type.Results != nil {
 		for _, f := range fd.Type.Results.List {
 			if len(f.Names) > 0 {
-				return false // named results (bare returns, defer interactions): not handled
+				named = true // named results: only when they are ordinary variables (no bare return, no defer that could read them)
 			}
 		}
 	}
@@ -218,7 +247,18 @@ func eligibleCallee(pkg *packages.Package, fd *ast.FuncDecl, obj *types.Func) bo
 		switch x := n.(type) {
 		case *ast.LabeledStmt, *ast.GoStmt:
 			ok = false
+		case *ast.ReturnStmt:
+			if named && len(x.Results) == 0 {
+				ok = false
+			}
+		case *ast.FuncLit:
+			if named {
+				ok = false
+			}
 		case *ast.DeferStmt:
+			if named {
+				ok = false
+			}
 			// allowed; the call site must then be a tail call (see handle)
 		case *ast.BranchStmt:
 			if x.Tok == token.GOTO || x.Label != nil {
@@ -381,6 +421,9 @@ func (ns *normState) collect(p *Prog, pkg *packages.Package, f *ast.File, src []
 			return false
 		}
 		ci, recvExpr := resolve(call)
+		if os.Getenv("OXY_DEBUG") == "norm" {
+			fmt.Fprintf(os.Stderr, "DBG handle kind=%s call=%s resolved=%v\n", kind, string(src[off(call.Pos()):off(call.End())]), ci != nil)
+		}
 		if ci == nil {
 			return false
 		}
@@ -436,9 +479,125 @@ func (ns *normState) collect(p *Prog, pkg *packages.Package, f *ast.File, src []
 		if kind == "defer" {
 			bodyR = nil // inside `defer func(){...}()` a return stays a return; results are evaluated and dropped
 		}
+		flagged := false
+		flagPre := ""
+		// continuation: the call's result is tested by an if statement right away —
+		//     a, ok := f(x); if !ok { ... }            (kind "assign", the if is the next statement)
+		//     if err := f(x); err != nil { ... }        (kind "ifinit")
+		// The if statement is moved to each return of the callee (decided there when the tested result is a
+		// literal true/false/nil): no merged value and no flag stands between the callee's decision and the
+		// caller's reaction.
+		var contIf *ast.IfStmt
+		var contLhs []ast.Expr
+		contTok := token.ASSIGN
+		switch kind {
+		case "assign":
+			if as, isAs := st.(*ast.AssignStmt); isAs && ns.nextStmt != nil {
+				if is, isIf := ns.nextStmt.(*ast.IfStmt); isIf && is.Init == nil {
+					contIf, contLhs, contTok = is, as.Lhs, as.Tok
+				}
+			}
+		case "ifinit":
+			if is, isIf := st.(*ast.IfStmt); isIf {
+				if as, isAs := is.Init.(*ast.AssignStmt); isAs {
+					contIf, contLhs, contTok = is, as.Lhs, as.Tok
+				}
+			}
+		}
+		if contIf != nil && contIf.Else == nil && !ci.hasDefer && len(contLhs) == len(rnames) && len(rnames) >= 1 {
+			cond, neg := ast.Expr(contIf.Cond), false
+			for {
+				if pe, ok := cond.(*ast.ParenExpr); ok {
+					cond = pe.X
+					continue
+				}
+				if ue, ok := cond.(*ast.UnaryExpr); ok && ue.Op == token.NOT {
+					cond, neg = ue.X, !neg
+					continue
+				}
+				break
+			}
+			// the tested result: `id`, `id != nil`, `id == nil`
+			var cid *ast.Ident
+			nilCmp := false
+			switch c := cond.(type) {
+			case *ast.Ident:
+				cid = c
+			case *ast.BinaryExpr:
+				if id, ok := c.X.(*ast.Ident); ok && (c.Op == token.NEQ || c.Op == token.EQL) {
+					if y, ok := c.Y.(*ast.Ident); ok && y.Name == "nil" {
+						cid, nilCmp = id, true
+						if c.Op == token.EQL {
+							neg = !neg
+						}
+					}
+				}
+			}
+			clean := true
+			ast.Inspect(contIf.Body, func(n ast.Node) bool {
+				switch n.(type) {
+				case *ast.BranchStmt, *ast.LabeledStmt, *ast.FuncLit, *ast.DeferStmt:
+					clean = false
+				}
+				return clean
+			})
+			if cid != nil && clean {
+				cobj := pkg.TypesInfo.Uses[cid]
+				idx := -1
+				for i, l := range contLhs {
+					lid, ok := l.(*ast.Ident)
+					if !ok {
+						idx = -1
+						break
+					}
+					lobj := pkg.TypesInfo.Defs[lid]
+					if lobj == nil {
+						lobj = pkg.TypesInfo.Uses[lid]
+					}
+					if lobj != nil && lobj == cobj {
+						idx = i
+					}
+				}
+				if idx >= 0 && (nilCmp || isPlainBasic(types.Bool)(sig.Results().At(idx).Type())) {
+					flagged = true
+					var decl bytes.Buffer
+					names := make([]string, len(contLhs))
+					for i, l := range contLhs {
+						lid := l.(*ast.Ident)
+						if lid.Name == "_" {
+							names[i] = rnames[i]
+							ts, _ := typeStr(sig.Results().At(i).Type())
+							fmt.Fprintf(&decl, "var %s %s\n_ = %s\n", rnames[i], ts, rnames[i])
+							continue
+						}
+						names[i] = lid.Name
+						if contTok == token.DEFINE && pkg.TypesInfo.Defs[lid] != nil {
+							ts, okT := typeStr(sig.Results().At(i).Type())
+							if !okT {
+								flagged = false
+								break
+							}
+							fmt.Fprintf(&decl, "var %s %s\n_ = %s\n", lid.Name, ts, lid.Name)
+						}
+					}
+					if flagged {
+						bodyR = names
+						flagPre = decl.String()
+						ns.flagIdx, ns.flagWhen, ns.flagNil = idx, !neg, nilCmp
+						ns.flagBody = string(src[off(contIf.Body.Lbrace)+1 : off(contIf.Body.Rbrace)])
+						ns.flagIfText = "if " + string(src[off(contIf.Cond.Pos()):off(contIf.Cond.End())]) + " {" + ns.flagBody + "}"
+						pre.Reset() // the r-variables are not used
+					}
+				}
+			}
+		}
+		if !flagged {
+			ns.flagIdx = -1
+		}
 		ns.tailMode = kind == "return"
 		body, hasRet, ok := ns.renderBodyMode(p, ci, k, bodyR, kind == "defer")
 		ns.tailMode = false
+		ns.flagIdx = -1
 		if !ok {
 			return false
 		}
@@ -525,6 +684,26 @@ func (ns *normState) collect(p *Prog, pkg *packages.Package, f *ast.File, src []
 				pi++
 			}
 		}
+		// named results are ordinary zero-initialised locals of the callee
+		if ci.decl.Type.Results != nil {
+			ri := 0
+			for _, fl := range ci.decl.Type.Results.List {
+				if len(fl.Names) == 0 {
+					ri++
+					continue
+				}
+				for _, nm := range fl.Names {
+					ts, ok := typeStr(sig.Results().At(ri).Type())
+					if !ok {
+						return false
+					}
+					if nm.Name != "_" {
+						fmt.Fprintf(&pre, "var %s %s\n_ = %s\n", nm.Name+k, ts, nm.Name+k)
+					}
+					ri++
+				}
+			}
+		}
 		if kind == "defer" {
 			fmt.Fprintf(&pre, "defer func() {\n%s\n}()\n", body)
 			*edits = append(*edits, textEdit{off(st.Pos()), off(st.End()), pre.String()})
@@ -553,6 +732,23 @@ func (ns *normState) collect(p *Prog, pkg *packages.Package, f *ast.File, src []
 			fmt.Fprintf(&pre, "%s\n", body)
 		}
 		pre.WriteString("}\n")
+		if flagged {
+			if kind == "ifinit" {
+				ns.skipBody = true
+				// the init variables were scoped to the if statement: keep them in a block of their own
+				*edits = append(*edits, textEdit{off(st.Pos()), off(st.End()), "{\n" + flagPre + pre.String() + "}\n"})
+			} else {
+				*edits = append(*edits, textEdit{off(st.Pos()), off(ns.nextStmt.End()), flagPre + pre.String()})
+				ns.ateNext = true
+			}
+			ns.inlined[ci.key] = true
+			if ci.obj != nil {
+				ns.sites[ci.obj]++
+			} else {
+				ci.litDone++
+			}
+			return true
+		}
 		rlist := strings.Join(rnames, ", ")
 		switch kind {
 		case "expr":
@@ -586,8 +782,25 @@ func (ns *normState) collect(p *Prog, pkg *packages.Package, f *ast.File, src []
 	}
 
 	visitList = func(list []ast.Stmt, enclosing *ast.FuncType) {
-		for _, st := range list {
+		skip := false
+		for i, st := range list {
+			if skip {
+				skip = false
+				continue
+			}
+			ns.nextStmt, ns.ateNext = nil, false
+			if i+1 < len(list) {
+				ns.nextStmt = list[i+1]
+			}
+			ns.skipBody = false
 			if handle(st, enclosing) {
+				if ns.ateNext {
+					skip = true // the following if statement was folded into the splice
+					continue
+				}
+				if ns.skipBody {
+					continue // the if statement was moved into the splice as a whole
+				}
 				// the statement text is replaced; for if-statements the body is still visited (edits do not overlap)
 				if is, ok := st.(*ast.IfStmt); ok {
 					visitNode(is.Body, enclosing)
@@ -688,22 +901,32 @@ func litCandidates(pkg *packages.Package, f *ast.File) map[*types.Var]*calleeInf
 			return true
 		}
 		for i, st := range bs.List {
-			ds, ok := st.(*ast.DeclStmt)
-			if !ok {
+			var nameId *ast.Ident
+			var lit *ast.FuncLit
+			switch d := st.(type) {
+			case *ast.DeclStmt:
+				gd, ok := d.Decl.(*ast.GenDecl)
+				if !ok || gd.Tok != token.VAR || len(gd.Specs) != 1 {
+					continue
+				}
+				vs, ok := gd.Specs[0].(*ast.ValueSpec)
+				if !ok || len(vs.Names) != 1 || len(vs.Values) != 1 {
+					continue
+				}
+				nameId = vs.Names[0]
+				lit, _ = vs.Values[0].(*ast.FuncLit)
+			case *ast.AssignStmt:
+				// name := func(...) {...}
+				if d.Tok != token.DEFINE || len(d.Lhs) != 1 || len(d.Rhs) != 1 {
+					continue
+				}
+				nameId, _ = d.Lhs[0].(*ast.Ident)
+				lit, _ = d.Rhs[0].(*ast.FuncLit)
+			}
+			if nameId == nil || lit == nil {
 				continue
 			}
-			gd, ok := ds.Decl.(*ast.GenDecl)
-			if !ok || gd.Tok != token.VAR || len(gd.Specs) != 1 {
-				continue
-			}
-			vs, ok := gd.Specs[0].(*ast.ValueSpec)
-			if !ok || len(vs.Names) != 1 || len(vs.Values) != 1 {
-				continue
-			}
-			lit, ok := vs.Values[0].(*ast.FuncLit)
-			if !ok {
-				continue
-			}
+			vs := &ast.ValueSpec{Names: []*ast.Ident{nameId}}
 			v, _ := info.Defs[vs.Names[0]].(*types.Var)
 			sig, _ := info.TypeOf(lit).(*types.Signature)
 			if v == nil || sig == nil || sig.Variadic() {
@@ -878,8 +1101,35 @@ func (ns *normState) renderBodyMode(p *Prog, ci *calleeInfo, k string, rnames []
 					return false
 				}
 				// return a, b  ->  { r0, r1 = a, b; break L }
+				epilogue := "; break L" + k + " }"
+				if ns.flagIdx >= 0 {
+					if len(x.Results) != len(rnames) {
+						okAll = false
+						return false
+					}
+					res := x.Results[ns.flagIdx]
+					tv, okc := info.Types[res]
+					switch {
+					case !ns.flagNil && okc && tv.Value != nil && tv.Value.Kind() == constant.Bool:
+						if constant.BoolVal(tv.Value) == ns.flagWhen {
+							epilogue = "\n" + ns.flagBody + "\nbreak L" + k + "\n}"
+						}
+					case ns.flagNil && okc && tv.IsNil():
+						if !ns.flagWhen { // the body runs when the value IS nil
+							epilogue = "\n" + ns.flagBody + "\nbreak L" + k + "\n}"
+						}
+					case ns.flagNil && knownNonNil(info, ci.decl.Body, x, res):
+						// `if err != nil { return err }`: the returned value is non-nil here
+						if ns.flagWhen {
+							epilogue = "\n" + ns.flagBody + "\nbreak L" + k + "\n}"
+						}
+					default:
+						// decided at run time: the if statement itself follows the assignment
+						epilogue = "\n" + ns.flagIfText + "\nbreak L" + k + "\n}"
+					}
+				}
 				edits = append(edits, textEdit{off(x.Pos()), off(x.Results[0].Pos()), "{ " + strings.Join(rnames, ", ") + " = "})
-				edits = append(edits, textEdit{off(x.End()), off(x.End()), "; break L" + k + " }"})
+				edits = append(edits, textEdit{off(x.End()), off(x.End()), epilogue})
 				for _, e := range x.Results {
 					walk(e, inLit)
 				}
@@ -945,6 +1195,11 @@ func captureSafe(pkg *packages.Package, ci *calleeInfo, at token.Pos) bool {
 		if v, isVar := o.(*types.Var); isVar && v.IsField() {
 			return true
 		}
+		if fn, isFn := o.(*types.Func); isFn {
+			if sg, _ := fn.Type().(*types.Signature); sg != nil && sg.Recv() != nil {
+				return true // a method name in a selector: resolved through its operand
+			}
+		}
 		if o.Pos() >= ci.decl.Pos() && o.Pos() < ci.decl.End() {
 			return true // callee-local (renamed)
 		}
@@ -955,10 +1210,189 @@ func captureSafe(pkg *packages.Package, ci *calleeInfo, at token.Pos) bool {
 			// (for a literal: also the enclosing function's locals it captures must be the ones visible at the call)
 			_, o2 := scope.LookupParent(id.Name, at)
 			if o2 != o {
+				if os.Getenv("OXY_DEBUG") == "norm" {
+					fmt.Fprintf(os.Stderr, "DBG capture %s differs\n", id.Name)
+				}
 				ok = false
 			}
 		}
 		return true
 	})
 	return ok
+}
+
+// condVarRound: a boolean local that only names a short-circuit condition — declared with `:=` from an
+// `&&` / `||` expression, used exactly once, as the (possibly negated) condition of the if statement that
+// follows immediately — is substituted back into that condition. The two forms evaluate the same
+// operands in the same order; the named form reaches its branch as a phi of constants and values, which
+// the edge-based rules do not read.
+func (ns *normState) condVarRound(p *Prog) (bool, error) {
+	changed := false
+	for _, pkg := range p.Pkgs {
+		rel := strings.TrimPrefix(strings.TrimPrefix(pkg.PkgPath, modPath), "/")
+		if rel == "testutils" {
+			continue
+		}
+		info := pkg.TypesInfo
+		useCount := map[types.Object]int{}
+		for _, o := range info.Uses {
+			useCount[o]++
+		}
+		for _, f := range pkg.Syntax {
+			fname := p.Fset.Position(f.Pos()).Filename
+			if strings.HasSuffix(fname, "_test.go") {
+				continue
+			}
+			src, err := ns.fileSrc(fname)
+			if err != nil {
+				return false, err
+			}
+			base := p.Fset.File(f.Pos()).Base()
+			off := func(pos token.Pos) int { return int(pos) - base }
+			var edits []textEdit
+			handleList := func(list []ast.Stmt) {
+				for i := 0; i+1 < len(list); i++ {
+					as, ok := list[i].(*ast.AssignStmt)
+					if !ok || as.Tok != token.DEFINE || len(as.Lhs) != 1 || len(as.Rhs) != 1 {
+						continue
+					}
+					id, ok := as.Lhs[0].(*ast.Ident)
+					if !ok || id.Name == "_" {
+						continue
+					}
+					be, ok := as.Rhs[0].(*ast.BinaryExpr)
+					if !ok || (be.Op != token.LAND && be.Op != token.LOR) {
+						continue
+					}
+					obj := info.Defs[id]
+					if obj == nil || useCount[obj] != 1 {
+						continue
+					}
+					is, ok := list[i+1].(*ast.IfStmt)
+					if !ok || is.Init != nil {
+						continue
+					}
+					cond := is.Cond
+					for {
+						if pe, ok := cond.(*ast.ParenExpr); ok {
+							cond = pe.X
+							continue
+						}
+						if ue, ok := cond.(*ast.UnaryExpr); ok && ue.Op == token.NOT {
+							cond = ue.X
+							continue
+						}
+						break
+					}
+					use, ok := cond.(*ast.Ident)
+					if !ok || info.Uses[use] != obj {
+						continue
+					}
+					rhs := string(src[off(be.Pos()):off(be.End())])
+					edits = append(edits, textEdit{off(as.Pos()), off(as.End()), ""})
+					edits = append(edits, textEdit{off(use.Pos()), off(use.End()), "(" + rhs + ")"})
+					ns.inlined[fmt.Sprintf("condition variable %s (%s:%d)", id.Name, rel, p.Fset.Position(as.Pos()).Line)] = true
+				}
+			}
+			ast.Inspect(f, func(n ast.Node) bool {
+				switch x := n.(type) {
+				case *ast.BlockStmt:
+					handleList(x.List)
+				case *ast.CaseClause:
+					handleList(x.Body)
+				case *ast.CommClause:
+					handleList(x.Body)
+				}
+				return true
+			})
+			if len(edits) == 0 {
+				continue
+			}
+			sort.Slice(edits, func(i, j int) bool { return edits[i].start > edits[j].start })
+			out := append([]byte(nil), src...)
+			for _, e := range edits {
+				if e.start < 0 || e.end > len(out) || e.start > e.end {
+					continue
+				}
+				out = append(out[:e.start], append([]byte(e.text), out[e.end:]...)...)
+			}
+			ns.src[fname] = out
+			changed = true
+		}
+	}
+	return changed, nil
+}
+
+// knownNonNil: the return statement ret of body returns the identifier res from inside the then-branch of an
+// enclosing `if res != nil` (or the else-branch of `if res == nil`) with no assignment to it in between.
+func knownNonNil(info *types.Info, body *ast.BlockStmt, ret *ast.ReturnStmt, res ast.Expr) bool {
+	id, ok := res.(*ast.Ident)
+	if !ok {
+		return false
+	}
+	obj := info.Uses[id]
+	if obj == nil {
+		return false
+	}
+	found := false
+	var visit func(n ast.Node, fact bool)
+	assigns := func(n ast.Node) bool {
+		hit := false
+		ast.Inspect(n, func(m ast.Node) bool {
+			if as, ok := m.(*ast.AssignStmt); ok {
+				for _, l := range as.Lhs {
+					if li, ok := l.(*ast.Ident); ok && (info.Uses[li] == obj || info.Defs[li] == obj) && as.Pos() < ret.Pos() {
+						hit = true
+					}
+				}
+			}
+			return !hit
+		})
+		return hit
+	}
+	visit = func(n ast.Node, fact bool) {
+		if n == nil || found {
+			return
+		}
+		switch x := n.(type) {
+		case *ast.ReturnStmt:
+			if x == ret && fact {
+				found = true
+			}
+		case *ast.IfStmt:
+			thenFact, elseFact := fact, fact
+			if be, ok := x.Cond.(*ast.BinaryExpr); ok && (be.Op == token.NEQ || be.Op == token.EQL) {
+				if ci, ok := be.X.(*ast.Ident); ok && info.Uses[ci] == obj {
+					if y, ok := be.Y.(*ast.Ident); ok && y.Name == "nil" {
+						if be.Op == token.NEQ && !assigns(x.Body) {
+							thenFact = true
+						}
+						if be.Op == token.EQL && x.Else != nil && !assigns(x.Else) {
+							elseFact = true
+						}
+					}
+				}
+			}
+			visit(x.Body, thenFact)
+			visit(x.Else, elseFact)
+		case *ast.BlockStmt:
+			for _, st := range x.List {
+				visit(st, fact)
+			}
+		case *ast.ForStmt:
+			visit(x.Body, false)
+		case *ast.RangeStmt:
+			visit(x.Body, false)
+		case *ast.SwitchStmt:
+			visit(x.Body, false)
+		case *ast.TypeSwitchStmt:
+			visit(x.Body, false)
+		case *ast.CaseClause:
+			for _, st := range x.Body {
+				visit(st, false)
+			}
+		}
+	}
+	visit(body, false)
+	return found
 }
